@@ -3,6 +3,7 @@ package main
 // C05 — indels are reported in reference coordinates whatever the alignment's columns.
 
 import (
+	"encoding/json"
 	"fmt"
 	"sort"
 	"strings"
@@ -376,6 +377,86 @@ func c05RunSAM(pats []string) (Obs, string) {
 	return o, o.Out
 }
 
+// patternOfRows turns a (reference row, query row) pair into column kinds (uncovered 'N' counts as a
+// present base: neither insertion nor deletion).
+func patternOfRows(refRow, qRow string) string {
+	b := make([]byte, len(refRow))
+	for i := range b {
+		switch {
+		case refRow[i] == '-' && qRow[i] == '-':
+			b[i] = kBoth
+		case refRow[i] == '-':
+			b[i] = kIns
+		case qRow[i] == '-':
+			b[i] = kDel
+		case upper(refRow[i]) == upper(qRow[i]):
+			b[i] = kSame
+		default:
+			b[i] = kOther
+		}
+	}
+	return string(b)
+}
+
+type c05MultiCase struct {
+	Recs []SamRec `json:"records"`
+}
+
+// c05MultiSam: multi-record (supplementary) queries cut from every master alignment over M/I/D, as in
+// C02 layer B, through `sam variants`: the ins:/del: records must be those of the union alignment.
+func c05MultiSam(shard, nshard int, res *engine.JobResult) {
+	anno := renderGenbank(c02RefB, nil)
+	var recs []SamRec
+	nq, bi := 0, 0
+	check := func(rs []SamRec, attribute bool) {
+		call := Call{Cmd: "samvariants", Sam: samText(len(c02RefB), rs), Ref: fastaOf("ref", c02RefB), Anno: anno, AnnoSuffix: "gb", Threads: 1}
+		o := call.Canon()
+		groups := groupRecords(rs)
+		res.Evals += len(groups)
+		var m map[string]string
+		if o.Outcome == "returned" && !o.HasErr {
+			m, _, _ = parseVariantRows(o.Out)
+		}
+		if m == nil || len(m) != len(groups) {
+			if attribute && len(groups) > 1 {
+				return
+			}
+			res.Violate("indel:multi-record-"+o.Outcome, fmt.Sprintf("sam variants fails on %s: %s %s", describeRecs(rs), o.String(), o.Detail), c05MultiCase{rs})
+			return
+		}
+		for _, g := range groups {
+			rr, qr, _ := pairRows(g, c02RefB, false)
+			want := c05Expect(patternOfRows(rr, qr))
+			got := indelsOf(m[g.Name])
+			if len(want) > 0 {
+				res.Nontrivial++
+			}
+			if strings.Join(got, "|") != strings.Join(want, "|") {
+				res.Violate("indel:multi-record-query", fmt.Sprintf("sam variants, query %s (%s) on reference %s: reported %v, the union alignment %q / %q has %v", g.Name, describeRecs(g.Recs), c02RefB, got, rr, qr, want), c05MultiCase{g.Recs})
+			}
+		}
+	}
+	flush := func() {
+		if nq == 0 {
+			return
+		}
+		if bi%nshard == shard {
+			check(recs, true)
+			res.States += nq
+		}
+		recs, nq = nil, 0
+		bi++
+	}
+	c02Cuts("quick", func(rs []SamRec, kind string) {
+		recs = append(recs, rs...)
+		nq++
+		if nq == 32 {
+			flush()
+		}
+	})
+	flush()
+}
+
 // c05SamLayer: every pattern without gap/gap columns and with at least one query base, as a
 // single-record SAM, grouped by number of reference bases.
 func c05SamLayer(maxW int, shard, nshard int, res *engine.JobResult) {
@@ -473,7 +554,7 @@ func init() {
 	register(&Prop{
 		ID:    "C05",
 		Level: "model_checking",
-		Rule: "bounded-exhaustive enumeration of alignment column patterns against a reference-coordinate indel model: every sequence of W<=7 (thorough 9) columns over {base/same, base/other, ref-gap/base, base/gap, gap/gap} with >=1 reference base, through `variants` (FASTA-MSA, all query rows of one reference row per call, a one-codon CDS annotated at bases 2..4) and, for patterns without gap/gap columns, through `sam variants` as a single-record SAM; " +
+		Rule: "bounded-exhaustive enumeration of alignment column patterns against a reference-coordinate indel model: every sequence of W<=7 (thorough 9) columns over {base/same, base/other, ref-gap/base, base/gap, gap/gap} with >=1 reference base, through `variants` (FASTA-MSA, all query rows of one reference row per call, a one-codon CDS annotated at bases 2..4) and, for patterns without gap/gap columns, through `sam variants` as a single-record SAM; every 2-record (supplementary) query cut from every master alignment over M/I/D with <=4 operators (adjacent, separated, overlapping; both clip styles and file orders) through `sam variants`; " +
 			"plus the oracle-free relation that deleting the gap/gap columns of a pair leaves its whole mutation list unchanged. A case is one (reference row, query row) pair; non-trivial = at least one ins/del record expected; each generated once",
 		Assumptions: []string{
 			"oracle: deletions = maximal runs of deleted reference positions, not reported when they contain reference base 1 or the last base; insertions = one record per reference gap between bases P and P+1 (P=0..L)",
@@ -498,6 +579,7 @@ func init() {
 			}
 			for s := 0; s < 16; s++ {
 				jobs = append(jobs, fmt.Sprintf("sam:%d/16", s))
+				jobs = append(jobs, fmt.Sprintf("multi:%d/16", s))
 			}
 			jobs = append(jobs, "cli")
 			return jobs, nil
@@ -507,6 +589,20 @@ func init() {
 			defer func() { res.Transitions = res.States }()
 			switch {
 			case strings.HasPrefix(job, "case:"):
+				var mc c05MultiCase
+				if err := json.Unmarshal([]byte(job[5:]), &mc); err == nil && len(mc.Recs) > 0 {
+					g := groupRecords(mc.Recs)[0]
+					call := Call{Cmd: "samvariants", Sam: samText(len(c02RefB), mc.Recs), Ref: fastaOf("ref", c02RefB), Anno: renderGenbank(c02RefB, nil), AnnoSuffix: "gb", Threads: 1}
+					o := call.Canon()
+					m, _, _ := parseVariantRows(o.Out)
+					rr, qr, _ := pairRows(g, c02RefB, false)
+					want := c05Expect(patternOfRows(rr, qr))
+					if got := indelsOf(m[g.Name]); strings.Join(got, "|") != strings.Join(want, "|") {
+						res.Violate("indel:multi-record-query", fmt.Sprintf("reported %v expected %v", got, want), mc)
+					}
+					res.Evals++
+					return res
+				}
 				var c c05Case
 				mustJSON(job[5:], &c)
 				c05Single(c, res)
@@ -515,6 +611,10 @@ func init() {
 					c05Shape(s, res)
 				}
 				res.Sample(c05Case{"sxidg", "msa"})
+			case strings.HasPrefix(job, "multi:"):
+				var s, n int
+				fmt.Sscanf(job, "multi:%d/%d", &s, &n)
+				c05MultiSam(s, n, res)
 			case strings.HasPrefix(job, "sam:"):
 				var s, n int
 				fmt.Sscanf(job, "sam:%d/%d", &s, &n)
